@@ -145,7 +145,7 @@ PROPS['C03'] = dict(
     props='props/C03.v',
     models=['Trie', 'Paths'],
     harness='c03',
-    args=dict(quick=['-chains', '3', '-blocks', '12'], escalated=['-chains', '6', '-blocks', '20'], thorough=['-chains', '30', '-blocks', '40']),
+    args=dict(quick=['-prop', '3', '-chains', '3', '-blocks', '12'], escalated=['-prop', '3', '-chains', '6', '-blocks', '20'], thorough=['-prop', '3', '-chains', '30', '-blocks', '40']),
     fingerprint_groups=['Exec', 'Trie'],
     rule='per chain four real nodes (controller + FSM + store, real BLS certificates) over one genesis; every block is built by a rotating leader from a '
          'mempool fed by the stateful generator (valid, invalid, conflicting, exactly-draining, duplicate transactions of 12 message kinds; some '
@@ -366,4 +366,55 @@ PROPS['C17'] = dict(
     trusted_base=['model/Frames.v is a hand-written mirror of p2p/encrypt.go tied by the fault-injection run on real connections'],
     level_text='Unbounded theorems: for any writes and read buffer sizes the reader gets exactly the written stream; for ANY frame sequence an adversary can put on the wire without the session key (modification, reordering, duplication, replay, truncation, foreign frames) the reader gets a prefix of the written stream and every deviation is reported as a read error; an endpoint accepts a session as coming from an honest identity only if that identity ran this very session (no man in the middle), on the same network and chain. Real connections are fault-injected at frame level and real handshakes attacked on every check.',
     level_note='Trusted: ideal cryptography (symbolic model), the hand-written mirror tied by correspondence. The handshake theorem is a symbolic (Dolev-Yao style) statement, not a computational one.',
+)
+
+
+PROPS['C11'] = dict(
+    props='props/C11.v',
+    models=['Proto', 'Paths', 'Trie'],
+    harness='c03',
+    args=dict(quick=['-prop', '11', '-chains', '3', '-blocks', '12'], escalated=['-prop', '11', '-chains', '6', '-blocks', '20'], thorough=['-prop', '11', '-chains', '30', '-blocks', '40']),
+    fingerprint_groups=['Exec', 'Replay'],
+    rule='per chain four real nodes (controller + FSM + store, real BLS certificates): every block is built by a rotating leader through the real '
+         'mempool / ProduceProposal path from valid, invalid, conflicting, exactly-draining, duplicate and UNUSUALLY ENCODED transactions (an explicit '
+         'default field or a non-minimal varint appended to a valid transaction) of 12 message kinds incl. governance proposals on the approve list, '
+         'and must be accepted by every other node on the validate, commit and replay paths (with restarts and discarded speculative validations); '
+         'at the end of the chain a FRESH node syncs every height from what node 0 serves from its archive (certificate + re-marshalled block) '
+         'through HandlePeerBlock(syncing): every served height must re-validate to the committed block hash and the replayed chain must end with '
+         'the same block hash and state root; a rejected honest block, an unservable height or a differing replay is reported directly; '
+         'non-trivial: blocks with transactions',
+    modelled='PROVED on the model: a transaction the node accepts is in canonical encoding, and re-marshalling a canonically encoded transaction '
+             'reproduces its bytes exactly (Proto.v) - so the block a node serves from its archive is byte-identical to the block it committed; the '
+             'state root is independent of map iteration order and worker schedule (Trie.v). NOT a theorem about the code: that ApplyBlock is the '
+             'same function on proposer and replicas, and that the sync path accepts what the archive serves - these are tied by the multi-path '
+             'differential run on real nodes including fresh-node replay from the archive (Paths.v only records that all paths must agree).',
+    assumptions=['the FSM / controller layer is tied by differential execution, not by proof (partial)', 'same governance-vote configuration on all nodes (the property\'s premise)'],
+    trusted_base=['model/Proto.v (see C06); model/Paths.v states only that all paths must report the same header'],
+    level_text='Theorems: accepted transactions are canonically encoded and the canonical encoding round-trips byte for byte, so an archive that re-marshals what it decoded serves exactly the committed block; the tree commit is schedule-independent. The system-level clauses (every honest proposal validates on every node; served blocks re-validate on a fresh node; replay from genesis reproduces every hash) are decided by running real nodes on generated chains with hostile mempools and by syncing a fresh node from the archive: differential validation, labelled partial. One defect was found and repaired this way (non-canonical transactions made served blocks unvalidatable).',
+    level_note='Partial: the state machine and controller are covered by the differential run, not by proof.',
+)
+
+PROPS['C14'] = dict(
+    props='props/C14.v',
+    models=['Bft', 'BftNet', 'Evidence', 'EvidenceCheck'],
+    harness='c14',
+    args=dict(quick=['-evidence', '150', '-index', '40'], escalated=['-evidence', '500', '-index', '120'], thorough=['-evidence', '5000', '-index', '800']),
+    fingerprint_groups=['Evidence', 'Bft'],
+    rule='(evidence) the REAL BFT.ProcessDSE on evidence fabricated from REAL aggregate signatures of chosen signer subsets over committees of '
+         '4, 5 and 7 validators (equal and skewed powers): same view / next round / other phase / other root height, payloads differing in the '
+         'block, the results, the proposer, or not at all, ELECTION and PROPOSE phases, root heights below the minimum evidence height, partial and '
+         'full certificates, overlapping and disjoint signer sets, a tampered aggregate, a block attached, (validator, height) pairs already '
+         'slashed, one to three pieces per call; the reported (signer, heights) list or the refusal is compared with Evidence.process_dse (M). '
+         '(index) the REAL fsm.HandleDoubleSigners called up to three times within one block on a real FSM with lists that contain fresh pairs, '
+         'a pair twice, and pairs slashed by an earlier call; acceptance and the resulting stakes are compared with '
+         'Evidence.handle_double_signers (M); a pair accepted twice is a violation (V); non-trivial: every case',
+    modelled='hand-modelled: DoubleSignEvidence.CheckBasic / Check, ProcessDSE, GetDoubleSigners, ValidateByzantineEvidence (coverage of the proposer\'s '
+             'slash list), HandleDoubleSigners with the double-signer index, the per-block per-committee slash budget of SlashValidator (also in '
+             'Ledger.v, C12). The replica behaviour the main theorem rests on is Bft.v (C01). Not modelled: collection of evidence from partial '
+             'certificates (addDSEByPartialQC), non-signer slashing (part of C12\'s chain runs).',
+    assumptions=['ideal signatures (an aggregate that verifies names a correct replica only if it sent exactly that vote)',
+                 'the double-signer index is never pruned'],
+    trusted_base=['model/Evidence.v is a hand-written mirror of bft/evidence.go and fsm.HandleDoubleSigners tied by the correspondence run with real signatures'],
+    level_text='Unbounded theorems: in every reachable network and for any evidence an adversary can assemble from existing signatures, a correct replica (one payload per view - a proved invariant of the replica model) is never reported as a double signer; every report is justified by a checked pair at that pair\'s root height; expired and early-phase evidence is refused; a (validator, height) pair is slashed at most once and a block naming it again is rejected; within a block a committee never slashes a validator by more than the cap. The evidence check and the index are compared with the real code on fabricated evidence with real signatures on every check.',
+    level_note='Trusted: ideal signatures, hand-written mirrors tied by correspondence, the replica model of C01.',
 )
